@@ -215,17 +215,22 @@ func checkFraming(p *Prog, r *Report) {
 		})
 		// nothing else consumes the reader in this function
 		other := ""
-		eachInstr(f, func(in ssa.Instruction) {
-			c := callOf(in)
-			if c == nil || in == ssa.Instruction(full) || in == ssa.Instruction(lenCall) {
-				return
+		for _, g := range p.RepoFns { // the reader goroutine, the function that created the reader, and any other closure of it
+			if g != f && g != f.Parent() && g.Parent() != f.Parent() {
+				continue
 			}
-			for _, a := range c.Args {
-				if typeName(a.Type()) == "bufio.Reader" && p.origin(a) == rdr {
-					other = calleeName(c)
+			eachInstr(g, func(in ssa.Instruction) {
+				c := callOf(in)
+				if c == nil || in == ssa.Instruction(full) || in == ssa.Instruction(lenCall) {
+					return
 				}
-			}
-		})
+				for _, a := range c.Args {
+					if typeName(a.Type()) == "bufio.Reader" && p.origin(a) == rdr {
+						other = calleeName(c) + " in " + fnKey(g)
+					}
+				}
+			})
+		}
 		r.Check(other == "", "R-FRAME.single-consumer", k+": consumers of the connection reader", p.pos(f.Pos()), "only the length peek and the full read",
 			"another call ("+other+") consumes the same reader between messages", true)
 		// reader created once per connection: its origin is not inside a loop of this function
